@@ -66,6 +66,8 @@ class Ctx:
         self.result_sick = None
         self.stored = None
         self.before_exc = None
+        self.recv_post = None
+        self.recv_post_exc = None
 
 
 class World:
@@ -197,6 +199,10 @@ def execute(world: World, op, step_no, oracle=None, budget=clock.DEFAULT_BUDGET,
         if shape in ('value', 'values', 'str') and val is not None:
             if any(val is w for w in world.vals) and not isinstance(val, str):
                 world.count('alias_result_not_stored')
+            elif isinstance(val, str) and not isinstance(val, AnsiStr) and '\x1b' in val:
+                # a plain str with escape sequences would be *parsed* when used as an operand
+                # (C02's business); such strings enter the world only through explicit 'new' ops
+                world.count('escaped_str_not_stored')
             elif isinstance(val, (AnsiString, AnsiStr, str)):
                 world.vals[dst] = val
                 ctx.entitled.add(dst)
@@ -214,6 +220,10 @@ def execute(world: World, op, step_no, oracle=None, budget=clock.DEFAULT_BUDGET,
         else:
             post_all.append(o)
     ctx.post_all = post_all
+
+    # ---- the receiver object itself (it may no longer be in the pool if the result went to its slot)
+    if recv is not None and not ctx.ip:
+        ctx.recv_post, ctx.recv_post_exc = _safe_observe(recv)
 
     # ---- observation of the result itself
     if ctx.exc is None and not ctx.timeout:
